@@ -224,6 +224,20 @@ def gen_texts(ctx):
                 add(t, "pow2edge")
                 if len(digs) < 60:
                     add("-" + digs + "e-" + str(scale), "pow2edge")
+    # G8b the doubles adjacent to a power of two, printed with 17 significant digits (%.17g and plain
+    # fixed notation): all-ones / all-zeros significands that are exactly representable, so the carry
+    # test must NOT fire (seeded C11-d1: `>` became `>=` in the carry test; 1.9999999999999998 -> 3.99…)
+    import struct as _st
+    for k in (range(-1070, 1024, 1) if T else list(range(-64, 72)) + [-1022, -1021, -300, 300, 1023]):
+        b = (k + 1023) << 52
+        for bits in (b - 1, b, b + 1):
+            if bits <= 0:
+                continue
+            x = _st.unpack("<d", _st.pack("<Q", bits))[0]
+            add("%.17g" % x, "pow2adjacent")
+            add("-%.17g" % x, "pow2adjacent")
+            if -20 <= k <= 60:
+                add(("%.25f" % x).rstrip("0").rstrip(".") if k < 53 else "%d" % int(x), "pow2adjacent")
     # G10 integer mantissas of 18..21 digits (around the 19-digit window and the 2^64 boundary) followed by
     # every exponent spelling: e E e+ E+ e- E- with small exponents
     for D in ["999999999999999999", "1000000000000000000", "9999999999999999999", "10000000000000000000", "18446744073709551615",
